@@ -688,5 +688,8 @@ func runEngineHistory(c *hx.Ctx, r *hx.Rng, idx int, prelude bool) error {
 	}
 	h.endMerges()
 	c.Case(fmt.Sprintf("engine:%d:%s", idx, h.kind), dropped)
-	return h.e.Close()
+	if a := h.emit("eclose", func() error { return h.e.Close() }); a != "ok" {
+		c.Violation(0, "", fmt.Sprintf("engine history %d (%s): the clean shutdown of the engine failed after the drops: %s", h.idx, h.kind, a))
+	}
+	return nil
 }
